@@ -1150,8 +1150,9 @@ impl TreeSink for ModelSink {
         if !self.chk_elem("maybe_clone_an_option_into_selectedcontent", option) {
             return;
         }
-        if self.dom.borrow().local_name(option.0) != Some("option") {
-            self.violation(format!("maybe_clone_an_option_into_selectedcontent: node {} is not an option element", option.0));
+        if !self.dom.borrow().is_html_elem_named(option.0, "option") {
+            // "guaranteed to be an <option> element": the HTML one, not a foreign namesake
+            self.violation(format!("maybe_clone_an_option_into_selectedcontent: node {} is not an HTML option element", option.0));
             return;
         }
         let before = self.dom.borrow().nodes.len();
